@@ -198,6 +198,33 @@ theorem constructed_history_view_iteration (c : Ctor α) (m0 : Matrix α) (hc : 
   rw [← ho', flatten_toRows m hinv, habs] at hcell
   refine ⟨hlt, by rw [hcn]; exact hcell, ⟨m.data[o]'hlt, List.getElem?_eq_getElem hlt⟩⟩
 
+/-- The storage length of every constructed history is determined by the list-of-rows model:
+    `data.len() = nrows · ncols` of the list-of-rows state (no hypothesis). -/
+theorem constructed_storage_length (c : Ctor α) (m0 : Matrix α) (hc : c.build = .ok m0)
+    (ops : List (Matrix.Op α)) :
+    (m0.run ops).data.length =
+      Rows.nrows (Rows.run (Rows.ctorRows c) ops) * Rows.ncols (Rows.run (Rows.ctorRows c) ops) := by
+  obtain ⟨hinv, habs⟩ := constructed_history_refines c m0 hc ops
+  rw [← habs, show Rows.nrows (abs (m0.run ops)) = (m0.run ops).rows from length_toRows _,
+    ncols_toRows _ hinv]
+  exact hinv.1
+
+/-- `constructed_history_view_iteration` with its one hypothesis stated on the specification
+    side: the list-of-rows state has at most `usize::MAX` cells (nothing is assumed about the
+    implementation-side storage any more). -/
+theorem constructed_history_view_iteration_spec_bound (c : Ctor α) (m0 : Matrix α)
+    (hc : c.build = .ok m0) (l : Live α) (hl : l.leaf = m0) (ops : List (Matrix.Op α))
+    (hfit : Rows.nrows (Rows.run (Rows.ctorRows c) ops) * Rows.ncols (Rows.run (Rows.ctorRows c) ops)
+      ≤ usizeMax) (n : Nat) :
+    ((l.mutateAll ops).leaf = m0.run ops ∧ (m0.run ops).Inv ∧
+      abs (m0.run ops) = Rows.run (Rows.ctorRows c) ops) ∧
+    (∀ i j, ((l.mutateAll ops).view Arith.fixed).view.get i j =
+      .ok ((reversalsOver (Rows.nrows (Rows.run (Rows.ctorRows c) ops))
+        (Rows.ncols (Rows.run (Rows.ctorRows c) ops)) l.flags).cell i j)) := by
+  have h := constructed_history_view_iteration c m0 hc l hl ops
+    (by rw [constructed_storage_length c m0 hc ops]; exact hfit) n
+  exact ⟨⟨h.1.1, h.1.2.1, h.1.2.2.1⟩, h.2.1⟩
+
 /-- non-vacuity of the end-to-end statement: a matrix from `from_flat_row_major`, one row-reversing
     view around it, a row inserted underneath; the hypotheses hold and the reversed view's cell
     `(0, 0)` is the first element of the *new* last row (offset 4 of the 3×2 storage) -/
